@@ -258,7 +258,11 @@ var deniedPrefixes = []string{
 var allowedFuncs = map[string]bool{
 	"(*fmt.wrapError).Unwrap": true, "(*fmt.wrapError).Error": true,
 	"(*fmt.wrapErrors).Unwrap": true, "(*fmt.wrapErrors).Error": true,
-	"(syscall.Errno).Is": true, "(syscall.Errno).Temporary": true, "(syscall.Errno).Timeout": true,
+	"(syscall.Errno).Is": true, "(syscall.Errno).Temporary": true, "(syscall.Errno).Timeout": true, "(syscall.Errno).Error": true,
+	"os.IsPathSeparator": true, "os.IsExist": true, "os.IsNotExist": true, "os.IsPermission": true, "os.underlyingError": true,
+	"os.underlyingErrorIs": true, "(*os.LinkError).Error": true, "(*os.LinkError).Unwrap": true, "(*os.SyscallError).Unwrap": true,
+	"(*os.SyscallError).Error": true, "os.NewSyscallError": true,
+	"(*github.com/pkg/xattr.Error).Error": true, "(*github.com/pkg/xattr.Error).Unwrap": true,
 }
 
 func deniedPkg(path string) bool {
@@ -441,8 +445,32 @@ func (p *Path) initPkg(pkg *ssa.Package) {
 			p.globals[g] = v
 		}
 	}
+	if ci := customInit[pkg.Pkg.Path()]; ci != nil {
+		ci(p, pkg)
+		return
+	}
 	if init := pkg.Func("init"); init != nil && len(init.Blocks) > 0 {
 		p.callFn(nil, init, nil, nil)
+	}
+}
+
+// packages whose initialisers touch the runtime: their globals are set up by hand
+var customInit map[string]func(p *Path, pkg *ssa.Package)
+
+func init() {
+	customInit = map[string]func(p *Path, pkg *ssa.Package){
+		"errors": func(p *Path, pkg *ssa.Package) {}, // errorType is only used by errors.As (an intrinsic)
+		"os": func(p *Path, pkg *ssa.Package) {
+			// the sentinel errors are the io/fs ones
+			fspkg := p.eng.pkgByID["io/fs"]
+			for _, n := range []string{"ErrInvalid", "ErrPermission", "ErrExist", "ErrNotExist", "ErrClosed"} {
+				g, ok := pkg.Members[n].(*ssa.Global)
+				fg, ok2 := fspkg.Members[n].(*ssa.Global)
+				if ok && ok2 {
+					*p.globals[g] = *p.global(fg)
+				}
+			}
+		},
 	}
 }
 
